@@ -202,7 +202,7 @@ fn run_plan(sc: &Scenario, pl: &Plan, reference: &Reference, out: &Out) {
         }
     };
     let before = json!({
-        "staging": orch::res(orch::g(|| Ok(m.has_staging()))),
+        "staging": orch::res(orch::g(|| Ok::<bool, anyhow::Error>(m.has_staging()))),
         "stage": orch::res(orch::g(|| m.stage().map(|s| s.unwrap_or(Value::Null)))),
         "anchors": orch::state(&m)["anchors"].clone(),
         "read": orch::state(&m)["read"].clone(),
@@ -256,7 +256,7 @@ fn run_plan(sc: &Scenario, pl: &Plan, reference: &Reference, out: &Out) {
         // invariants after a failed attempt
         let st = orch::state(&m);
         let now = json!({
-            "staging": orch::res(orch::g(|| Ok(m.has_staging()))),
+            "staging": orch::res(orch::g(|| Ok::<bool, anyhow::Error>(m.has_staging()))),
             "stage": orch::res(orch::g(|| m.stage().map(|s| s.unwrap_or(Value::Null)))),
             "anchors": st["anchors"].clone(),
             "read": st["read"].clone(),
@@ -285,9 +285,7 @@ fn run_plan(sc: &Scenario, pl: &Plan, reference: &Reference, out: &Out) {
             fail(&what, &format!("after failed commit attempt {}: a fresh replica on the storage does not show the previous state; {}", attempt, d));
             bad = true;
         }
-        if bad {
-            return;
-        }
+        let _ = bad; // later attempts and the retry are still checked: failures are capped per check kind
     }
     plan.lock().unwrap().armed = false;
     if !committed {
